@@ -61,6 +61,9 @@ func cmdSeq(args []string) int {
 			ns := 3 + r.Intn(*maxStates-2)
 			c.Names, c.Schema = gen.RandSchema(r, ns, 0.15+0.25*r.Float64(), true, true)
 			c.Label = fmt.Sprintf("rnd#%d", i)
+		case "auto":
+			c.Names, c.Schema = gen.AutoSchema(r)
+			c.Label = fmt.Sprintf("auto#%d", i)
 		case "dag":
 			c.Names, c.Schema = gen.DagSchema(r, 4+r.Intn(3), 0.35)
 			c.Label = fmt.Sprintf("dag#%d", i)
@@ -85,6 +88,12 @@ func cmdSeq(args []string) int {
 				c.Binds = append(c.Binds, gen.FullBinding(index))
 			}
 			c.Calls = gen.FaultCalls(r, c, *calls)
+		} else if *mode == "auto" {
+			if !c.On {
+				c.On = true
+				c.Binds = append(c.Binds, gen.FullBinding(index))
+			}
+			c.Calls = gen.AutoCalls(r, c, *calls)
 		} else {
 			c.Calls = gen.RandCalls(r, c, *calls, *vetoP, 2)
 		}
